@@ -25,7 +25,11 @@ RULE = ("run: real multi-threaded Bencher runs (threads T in {2,3,4,8}, sample_c
         "recorded sample is compared. tune: T in {2,3}, no sample_size, every call costs 60/30/13 virtual ticks "
         "at a precision of 1 tick so that tuning takes 2/3/4 rounds (sizes 1, 2, 4, ...; call budget as watchdog), same jitter; the "
         "per-round sizes are read off the log (history-driven) and replay, log_sb and the recorded samples (from the round that ends "
-        "tuning on) are checked with them. panic: T in {2,3}, a panic injected at every "
+        "tuning on) are checked with them. e2e: the real-macro binary hx-round-e2e, "
+        "#[divan::bench] functions with the Rust ABI and extern C/system ABI returning outputs with drop glue (sized and "
+        "zero-sized), threads 2/3 through Divan::from_args().main(), one process per case, optionally one slow thread; divan's "
+        "own unlogged `|| ()` generator calls are put back before each thread's first wait, then the same replay and log_sb apply. "
+        "panic: T in {2,3}, a panic injected at every "
         "(thread, phase in {first/last generator call, first/last benchmarked call, first output drop, first input "
         "drop}) in round 0 or 1, plus two-thread and all-thread panics, each under a watchdog (outcome `hang`). "
         "Non-trivial = the model accepted the whole log and the run had >= 2 threads; distinct by case line. "
@@ -91,12 +95,12 @@ def masks_for(T, rng, kind):
     return ",".join("".join(rng.choice("01") for _ in range(T)) for _ in range(rng.choice([2, 3])))
 
 
-def corpus_cases():
+def corpus_cases(e2e=False):
     out = []
     d = os.path.join(vp.ROOT, "corpus")
     if os.path.isdir(d):
         for f in sorted(os.listdir(d)):
-            if f.startswith("C08-") and f.endswith(".txt"):
+            if f.startswith("C08-") and f.endswith(".txt") and (f.startswith("C08-e2e") == e2e):
                 for line in open(os.path.join(d, f), encoding="utf-8"):
                     line = line.strip()
                     if line and not line.startswith("#"):
@@ -237,6 +241,15 @@ def streams(tier, rng):
                     tune.append(case_line(T, T * rng.choice([1, 2, 3]), 1, sh, path, rng.getrandbits(32), jit,
                                           slow=rng.randrange(T), skipext=rng.randrange(2), tune=1, cost=cost))
 
+    # ---- real-macro binary: extern-ABI benches with Drop outputs, several threads, real entry point ---------
+    e2e = corpus_cases(e2e=True)
+    for bench in ("extern_c", "extern_system", "extern_c_zst", "rust_abi", "rust_abi_zst"):
+        for T in (2, 3):
+            for _ in range(2 if quick else 10):
+                n = rng.choice([1, 2, 3])
+                S = T * rng.choice([1, 2])
+                e2e.append(f"bench={bench} T={T} S={S} R={(S + T - 1) // T} n={n} sh=10 slow={rng.randrange(-1, T)} fault=none")
+
     mi = lambda case, impl: case + "\t" + impl
     nt = lambda c, m: (m.startswith("ok ") or m.startswith("panic ")) and "REJECT" not in m
     return [
@@ -250,6 +263,11 @@ def streams(tier, rng):
                impl_timeout=900, hist=hist_of(tune),
                describe="no sample_size: tuning rounds of sizes 1, 2, 4, ... (2-4 of them) then collecting; per-round sizes read "
                         "off the log; replay, log_sb with per-round sizes, recorded allocation info from the round that ends tuning"),
+        Stream("round-e2e", "e2e", e2e, nontrivial=nt, model_input=mi, impl_runner=parallel_runner(4), impl_timeout=900,
+               hist={b: sum(1 for c in e2e if f"bench={b} " in c) for b in ("extern_c", "extern_system", "extern_c_zst", "rust_abi", "rust_abi_zst")},
+               describe="real-macro binary hx-round-e2e (one process per case): #[divan::bench] extern \"C\"/\"system\" and Rust-ABI "
+                        "functions returning Drop outputs, threads 2/3 through Divan::main; replay + log_sb on the global log "
+                        "(output drops only after the end rendezvous, never while a thread is being timed)"),
     ]
 
 
